@@ -669,6 +669,32 @@ func runC13(c *core.Ctx) {
 		}
 	}
 
+	// 2b. parents with many children (the count at every boundary size) in shuffled order: sort under each comparator, then
+	// insert at the front and remove from the back; all accessors of all nodes are compared after every call
+	kb := 0
+	for _, nc := range wl.BoundarySizes {
+		if nc < 2 || nc > 600 {
+			continue
+		}
+		for cmp := 0; cmp < 3; cmp++ {
+			kb++
+			if !c.Mine(kb) {
+				continue
+			}
+			perm := r.Perm(nc)
+			var init [][2]int
+			for _, x := range perm {
+				init = append(init, [2]int{0, 1 + x})
+			}
+			ops := []c13Op{{Kind: "sort", P: 0, Ref: -1, Cmp: cmp}, {Kind: "insertBefore", P: 0, Ref: 1 + perm[0], C: nc + 1}, {Kind: "sort", P: 0, Ref: -1, Cmp: (cmp + 1) % 3},
+				{Kind: "remove", P: 0, Ref: -1, C: 1 + perm[nc-1]}, {Kind: "insertAfter", P: 0, Ref: -1, C: 1 + perm[nc-1]}, {Kind: "sort", P: 0, Ref: -1, Cmp: cmp}}
+			if i, d := c13RunSeq(nc+2, init, ops, onState); i >= 0 {
+				c13Report(c, nc+2, init, ops, i, d)
+			}
+			c.Count("large_parent_sequences", 1)
+		}
+	}
+
 	c.Evals(int(c13Calls))
 	c.Count("api_calls", c13Calls)
 
@@ -755,6 +781,12 @@ func c13RealWalk(nodes []ast.Node, ids map[ast.Node]int, root int, script map[wa
 }
 
 func c13WalkCase(c *core.Ctx, n int, init [][2]int, script map[walkEvent]int) {
+	c13WalkCaseFrom(c, n, init, script, 0)
+}
+
+// c13WalkCaseFrom starts the walk at node start (Walk is defined for any node, not only for roots: it must stay inside the
+// subtree of the node it is given).
+func c13WalkCaseFrom(c *core.Ctx, n int, init [][2]int, script map[walkEvent]int, start int) {
 	m, nodes, ids := c13Setup(n, init)
 	errs := map[walkEvent]error{}
 	for ev, oc := range script {
@@ -762,10 +794,10 @@ func c13WalkCase(c *core.Ctx, n int, init [][2]int, script map[walkEvent]int) {
 			errs[ev] = fmt.Errorf("boom@%d/%v", ev.Node, ev.Entering)
 		}
 	}
-	want, wantErr := c13ModelWalk(m, 0, script, errs)
+	want, wantErr := c13ModelWalk(m, start, script, errs)
 	var got []walkEvent
 	var gotErr error
-	pv, st := core.Try(func() { got, gotErr = c13RealWalk(nodes, ids, 0, script, errs) })
+	pv, st := core.Try(func() { got, gotErr = c13RealWalk(nodes, ids, start, script, errs) })
 	c.Eval()
 	c.Count("walk_scripts", 1)
 	desc := ""
@@ -800,8 +832,8 @@ func c13WalkCase(c *core.Ctx, n int, init [][2]int, script map[walkEvent]int) {
 			}
 		}
 		c.Violation(&core.Violation{Class: "walk-mismatch", Locus: strings.Join(parts, ","),
-			Script: map[string]any{"walk": true, "pool": n, "init": init, "script": sc},
-			Detail: fmt.Sprintf("tree links %v, script %v\n got  %v err=%v\n want %v err=%v\n%s", init, sc, got, gotErr, want, wantErr, desc)})
+			Script: map[string]any{"walk": true, "pool": n, "init": init, "script": sc, "start": start},
+			Detail: fmt.Sprintf("tree links %v, walk started at node %d, script %v\n got  %v err=%v\n want %v err=%v\n%s", init, start, sc, got, gotErr, want, wantErr, desc)})
 	}
 }
 
@@ -828,6 +860,19 @@ func c13Walks(c *core.Ctx) {
 		k++
 		if c.Mine(k) {
 			c13WalkCase(c, n, tree, map[walkEvent]int{})
+		}
+		// walks started at every inner node and leaf, without and with one deviation
+		for start := 1; start < n; start++ {
+			k++
+			if c.Mine(k) {
+				c13WalkCaseFrom(c, n, tree, map[walkEvent]int{}, start)
+				for _, e1 := range events {
+					for o1 := 1; o1 <= 3; o1++ {
+						c13WalkCaseFrom(c, n, tree, map[walkEvent]int{e1: o1}, start)
+					}
+				}
+				c.Count("walks_started_below_the_root", 1)
+			}
 		}
 		for i, e1 := range events {
 			for o1 := 1; o1 <= 3; o1++ {
@@ -906,7 +951,11 @@ func c13Walks(c *core.Ctx) {
 		for d := r.Intn(4); d > 0; d-- {
 			script[walkEvent{r.Intn(n), r.Intn(2) == 0}] = 1 + r.Intn(3)
 		}
-		c13WalkCase(c, n, tree, script)
+		if i%3 == 0 {
+			c13WalkCaseFrom(c, n, tree, script, r.Intn(n))
+		} else {
+			c13WalkCase(c, n, tree, script)
+		}
 		if c.WantSample() && i == 5 {
 			c.Sample(map[string]any{"kind": "walk-script", "tree_links": tree, "deviations": len(script)})
 		}
@@ -933,7 +982,11 @@ func replayC13(c *core.Ctx, v *core.Violation) (bool, string) {
 			e := x.(map[string]any)
 			script[walkEvent{int(e["node"].(float64)), e["entering"].(bool)}] = codes[e["outcome"].(string)]
 		}
-		c13WalkCase(c, n, init, script)
+		start := 0
+		if f, ok := sc["start"].(float64); ok {
+			start = int(f)
+		}
+		c13WalkCaseFrom(c, n, init, script, start)
 		s := c.Finish()
 		return len(s.Violations) > 0, "walk script re-executed"
 	}
